@@ -1,4 +1,5 @@
 import SJ.Props.C12
+import SJ.Props.StreamTyped
 #print axioms SJ.Props.C12.c12_fused
 #print axioms SJ.Props.C12.c12_error_fails
 #print axioms SJ.Props.C12.c12_progress
@@ -8,3 +9,10 @@ import SJ.Props.C12
 #print axioms SJ.Props.C12.c12_expected_end
 #print axioms SJ.Props.C12.c12_values_one
 #print axioms SJ.Props.C12.c12_values_canon
+#print axioms SJ.Props.StreamTyped.c12_typed_fused
+#print axioms SJ.Props.StreamTyped.c12_typed_error_fails
+#print axioms SJ.Props.StreamTyped.c12_typed_fused_after
+#print axioms SJ.Props.StreamTyped.c12_typed_progress
+#print axioms SJ.Props.StreamTyped.c12_typed_history_get
+#print axioms SJ.Props.StreamTyped.c12_typed_eof_at_end
+#print axioms SJ.Props.StreamTyped.nextT_no_fuel
